@@ -112,7 +112,7 @@ def build(shapes, seed=0, mode="binds", formname="data", homonyms=False):
     for shape, given in shapes:
         n += 1
         name = given or f"n{n}"
-        if dotted and re.fullmatch(r"n\d+", name):
+        if dotted and re.fullmatch(r"n\d+", name) and (rnd.random() < 0.6 or (given or f"n{n}") in dups):
             name = f"{name}.a-b"
             if (given or f"n{n}") in dups:
                 dups = dups | {name}
